@@ -1573,6 +1573,9 @@ def correspondence(case, impl, model):
         got = real_as_model(sh, th, impl["seq"][i])
         if want != got:
             return f"sequential result of thread {i}: model {want} real {got}"
+    if (model.get("conflictFree") or model.get("sameValue")) and impl.get("nonseq"):
+        return ("the programs satisfy the hypotheses of a linearizability theorem (conflict free / same-value writes), but "
+                f"{impl['nonseq']} schedules of the real code were not sequential")
     for o, mrun in zip(impl["outcomes"], model["runs"]):
         for c, key in o.get("wsites") or []:
             if c >= 0 and key not in sh.sites.get(c, ()):
@@ -1672,6 +1675,9 @@ def oracle(case, impl):
 def tags(case, impl, model):
     t = [f"stream:{case['stream']}", f"shape:{case['shape']}", f"threads:{len(case['threads'])}"]
     t += [f"op:{th['op']}" for th in case["threads"]]
+    if case["stream"] == "A" and isinstance(model, dict) and "conflictFree" in model:
+        t.append("theorem:" + ("conflict-free (C20_partial / private copies)" if model["conflictFree"] else
+                               "same-value-writes" if model.get("sameValue") else "none (racy: counter-schedules)"))
     if "outcomes" in impl:
         t.append("case:nonsequential-seen" if impl["nonseq"] else "case:all-sequential")
         t.append("seq:" + "+".join(sorted("ok" if "ok" in s else s["err"] for s in impl["seq"])))
